@@ -115,6 +115,11 @@ func cases(tier string, seed int64) []eng.Case {
 				Run: func(c *eng.Ctx) { runEntry(c, e, k, tier) }})
 		}
 	}
+	for i := range moEntries {
+		e := moEntries[i]
+		out = append(out, eng.Case{ID: "marshalonly/" + e.Name, Sig: "C08|marshalonly|" + e.Name, Desc: map[string]any{"type": e.Name, "check": "marshalonly", "variants": e.Variants},
+			Run: func(c *eng.Ctx) { runMarshalOnly(c, e) }})
+	}
 	ns := 24
 	if tier == "thorough" {
 		ns = 300
